@@ -108,6 +108,19 @@ type End struct {
 	// Default: writes never block (unbounded queue).
 	synchronous bool
 	wtimer      *time.Timer
+
+	// fragment > 0: every Write is delivered in segments of at most this many
+	// octets (the peer's Read returns octets of one segment at most): what a
+	// network may do to the replies of a server that writes each in one piece.
+	fragment int
+}
+
+// SetFragment sets the fragment size of this end's writes (0 = one segment
+// per Write).
+func (e *End) SetFragment(n int) {
+	e.hub.mu.Lock()
+	e.fragment = n
+	e.hub.mu.Unlock()
 }
 
 // SetSynchronous switches this end's Write to net.Pipe behaviour (see the
@@ -233,9 +246,21 @@ func (e *End) Write(p []byte) (int, error) {
 	if len(p) == 0 {
 		return 0, nil
 	}
-	e.out.segs = append(e.out.segs, append([]byte(nil), p...))
+	if e.fragment > 0 && len(p) > e.fragment {
+		for rest := p; len(rest) > 0; {
+			n := e.fragment
+			if n > len(rest) {
+				n = len(rest)
+			}
+			e.out.segs = append(e.out.segs, append([]byte(nil), rest[:n]...))
+			e.out.nsegs++
+			rest = rest[n:]
+		}
+	} else {
+		e.out.segs = append(e.out.segs, append([]byte(nil), p...))
+		e.out.nsegs++
+	}
 	e.out.written += int64(len(p))
-	e.out.nsegs++
 	e.hub.cond.Broadcast()
 	if !e.synchronous {
 		return len(p), nil
